@@ -101,6 +101,16 @@ NEEDS = {
  'C11e': ('GaussNoise.apply writes the noisy channel into the caller\'s image when apply_to_channel_idx is set', 'GaussNoise(apply_to_channel_idx=k) on an H x W x D x C image'),
  'C15e': ('Compose.__call__ tests `force_apply is True`', 'a Compose with p < 1 forced with force_apply=1 (documented as "bool or int")'),
  'C19e': ('clamping_crop unpacks the shape as (w, h, d) (same edit as C07d, produced independently for C19)', 'RandomCropNearBBox on a frame with rows != cols'),
+ 'C01f': ('ShiftScaleRotate.apply_to_mask names its plane formal `axis`; get_params supplies `axes`, so masks always turn in xy', 'ShiftScaleRotate(axes="yz" / "xz") with a non-zero angle and a mask-type target'),
+ 'C03f': ('BasicTransform.apply_with_params calls update_params once per target instead of once per call', 'PadIfNeeded(position="random") with keypoints on an axis that gets padded'),
+ 'C05f': ('DataProcessor.add_label_fields_to_data joins the label fields to the default target only (removal still strips every target)', 'declared label_fields together with an additional bboxes / keypoints target'),
+ 'C07f': ('RandomCropFromBorders draws z_max from (1 - crop_close) * depth instead of (1 - crop_far) * depth', 'RandomCropFromBorders with crop_close != crop_far'),
+ 'C08f': ('NPSNoise samples the tube-current magnitude with random.randint instead of random.uniform', 'NPSNoise(sample_tube_current=True) on a header whose XRayTubeCurrent is a float'),
+ 'C10e': ('the yolo_3d validity check rejects a normalised extent of exactly 1.0', 'a yolo_3d box that spans the whole frame along an axis, pipeline not firing'),
+ 'C11f': ('cutout fills the holes into the array it is given; every call site copies except CoarseDropout.apply_to_mask', 'CoarseDropout(mask_fill_value=v) with a mask / masks target'),
+ 'C13f': ('Compose.get_dict_with_id no longer records additional_targets (same edit as C01c, produced independently for C13)', 'ReplayCompose with additional targets, replayed with those targets'),
+ 'C17e': ('keypoint_transpose maps angles above 90 degrees with 3*pi/2 - a instead of 5*pi/2 - a', 'Transpose (twice) on keypoints with an angle field above 180 degrees'),
+ 'C18f': ('_brightness_contrast_adjust clips to max_brightness only when beta != 0', 'RandomBrightnessContrast(max_brightness=m, brightness_limit=0) with contrast > 1'),
  'C20b': ('GridDropout loops k over range(height // unit_depth + 1)', 'GridDropout on a volume whose depth exceeds its height by a grid unit or more'),
 }
 detected = json.load(open(os.path.join(V, 'seeded', 'detected.json'))) if os.path.exists(os.path.join(V, 'seeded', 'detected.json')) else {}
